@@ -37,9 +37,6 @@ pub fn dash_path(path: &Path, dash_array: &[f32], mut dash_offset: f32) -> Path 
     // Handle large positive and negative offsets so that we don't loop for a high number of
     // iterations below in extreme cases
     dash_offset = dash_offset % total_dash_length;
-    if dash_offset < 0. {
-        dash_offset += total_dash_length;
-    }
 
     // To handle closed paths we need a bunch of extra state so that we properly
     // join the first segment. Unfortunately, this makes the code sort of hairy.
@@ -58,13 +55,29 @@ pub fn dash_path(path: &Path, dash_array: &[f32], mut dash_offset: f32) -> Path 
     // adjust our position in the dash array by the dash offset; an offset that ends exactly
     // on a dash boundary starts the path at the beginning of the next dash (so that a closed
     // subpath starting exactly on an 'on' dash can still be joined to its last dash)
-    while dash_offset >= state.remaining_length {
-        dash_offset -= state.remaining_length;
-        state.index += 1;
-        state.remaining_length = dash_array[state.index % dash_array.len()];
-        state.on = !state.on;
+    if dash_offset < 0. {
+        // a negative offset is walked backwards from the end of the period: adding the
+        // period to it instead would round the offset to the precision of the period
+        // (a dash followed by a very long gap has a period of 1e9)
+        let period = if dash_array.len() % 2 == 1 { 2 * dash_array.len() } else { dash_array.len() };
+        let mut back = -dash_offset;
+        let mut index = period - 1;
+        while index > 0 && back > dash_array[index % dash_array.len()] {
+            back -= dash_array[index % dash_array.len()];
+            index -= 1;
+        }
+        state.index = index;
+        state.on = index % 2 == 0;
+        state.remaining_length = back.min(dash_array[index % dash_array.len()]);
+    } else {
+        while dash_offset >= state.remaining_length {
+            dash_offset -= state.remaining_length;
+            state.index += 1;
+            state.remaining_length = dash_array[state.index % dash_array.len()];
+            state.on = !state.on;
+        }
+        state.remaining_length -= dash_offset;
     }
-    state.remaining_length -= dash_offset;
 
     // Save a copy of the initial state so that we can restore it for each subpath
     let initial = state;
